@@ -21,6 +21,14 @@ def install():
   import audiolazy.lazy_io as lio
   shim = threads.make_threading_shim()
   lio.threading = shim
+  # any other module of the package that reaches threading primitives (none
+  # on the pinned tree) gets simulator-owned ones too: a real lock taken by
+  # a simulated thread would block the baton holder outside the simulator
+  import sys as _sys
+  for mname, mod in sorted(_sys.modules.items()):
+    if mod is not None and (mname == "audiolazy" or
+                            mname.startswith("audiolazy.")):
+      threads.shim_module_globals(mod, shim)
   AT = lio.AudioThread
   orig_run = AT.run
 
